@@ -5,5 +5,6 @@ export GOFLAGS=-mod=mod GOPROXY=off GOSUMDB=off GOTOOLCHAIN=local
 export VERIF_DIR="${VERIF_DIR:-$(cd "$(dirname "${BASH_SOURCE[0]}")/.." && pwd)}"
 cd "$VERIF_DIR/harness"
 mkdir -p "$VERIF_DIR/.build" "$VERIF_DIR/evidence" "$VERIF_DIR/replays"
-go build -tags badger -o "$VERIF_DIR/.build/vcheck" ./cmd/vcheck
+"$VERIF_DIR/bin/vcheck" >/dev/null 2>&1 || true   # builds (prints usage, exit 2)
+test -x "$VERIF_DIR/.build/vcheck"
 echo "setup ok"
